@@ -79,11 +79,45 @@ class Session(object):
             if prop is None or prop in sp.props or any(prop in (c.props or ()) for c in sp.ensures):
                 out.append(full)
         for n, lem in sorted(self.specs.lemmas.items()):
-            if lem.trusted:
+            if lem.trusted or lem.bounded:
                 continue
             if prop is None or prop in lem.props:
                 out.append('lemma.' + n)
         return out
+
+    def bounded_lemmas(self, prop=None):
+        return [lem for n, lem in sorted(self.specs.lemmas.items()) if lem.bounded and (prop is None or prop in lem.props)]
+
+    def check_bounded_lemma(self, lem, timeout, widen=0):
+        """every shape in the lemma's box, contents symbolic; returns dict with counts and failures"""
+        import itertools
+        box = lem.box or {}
+        keys = sorted(box)
+        ranges = [range(box[k][0], box[k][1] + 1 + (widen if not k[0].islower() or '(' in k else widen)) for k in keys]
+        shapes = 0
+        queries = []
+        t0 = time.time()
+        for combo in itertools.product(*ranges):
+            conc = dict(zip(keys, combo))
+            v = LemmaVerifier(self.prog, self.specs, lem, lem.pkg, resolver=self.resolver, concrete=conc)
+            ctx = v.run()
+            if v.req_false:
+                continue
+            shapes += 1
+            for ob in ctx.obligations:
+                if not getattr(ob, 'trivial', False):
+                    queries.append((ctx, ob, conc))
+        fails = []
+
+        def work(q):
+            ctx, ob, conc = q
+            r = solve.check(ctx, ob, timeout, self.workdir)
+            return q, r
+        with ThreadPoolExecutor(max_workers=16) as pool:
+            for (ctx, ob, conc), r in pool.map(work, queries):
+                if r['status'] != 'unsat':
+                    fails.append({'shape': conc, 'obligation': ob.name, 'status': r['status'], 'output': (r.get('output') or '')[:1500]})
+        return {'lemma': lem.name, 'box': dict((k, list(v_)) for k, v_ in box.items()), 'shapes': shapes, 'queries': len(queries), 'failures': fails, 'wall_s': round(time.time() - t0, 2)}
 
     def generate(self, full):
         from .exec import Obligation
@@ -310,6 +344,11 @@ def check_property(prop, tier, seed):
         rets = [c_.result['status'] for c_ in cans[1:]]
         if rets and all(x == 'unsat' for x in rets):
             vac_problems.append('%s: no return reachable' % short_fn(g['func']))
+        dead = sum(1 for x in rets if x == 'unsat')
+        sp_ = ses.resolver(g['func']) if not g['func'].startswith('lemma.') else None
+        allowed = int((sp_.opts.get('deadreturns') or ['0'])[0]) if sp_ else 0
+        if dead > allowed:
+            vac_problems.append('%s: %d return(s) proved unreachable (expected %d): the context may be contradictory' % (short_fn(g['func']), dead, allowed))
         if fo == 0:
             vac_problems.append('%s: zero obligations generated' % short_fn(g['func']))
         missing = [n for n in lock.get(short_fn(g['func']), []) if n not in names]
@@ -429,9 +468,16 @@ def main(argv=None):
         for f in (a.func or []):
             cands = [x for x in ses.prog.funcs if x == f or short_fn(x) == f or short_fn(x).split('.', 1)[-1] == f]
             if f.startswith('lemma.') and f[6:] in ses.specs.lemmas:
+                lem = ses.specs.lemmas[f[6:]]
+                if lem.bounded:
+                    r = ses.check_bounded_lemma(lem, a.timeout)
+                    print('bounded lemma %s: shapes %d queries %d failures %d (%.1fs)' % (lem.name, r['shapes'], r['queries'], len(r['failures']), r['wall_s']))
+                    for fl in r['failures'][:5]:
+                        print('   ', fl['shape'], fl['obligation'], fl['status'])
+                    continue
                 cands = [f]
             funcs += cands
-        if not funcs:
+        if not funcs and not a.func:
             funcs = ses.claimed_functions()
         bad = 0
         for f in funcs:
